@@ -197,60 +197,7 @@ func runC15(p *core.Prog, r *core.Report) {
 	})
 
 	// ------------------------------------------------------------------ R2
-	r.Guard("C15.R2", "bitmap-mutation", "fresh receivers only", func() {
-		mutating := map[string]bool{"And": true, "Or": true, "Xor": true, "AndNot": true, "Flip": true, "Add": true, "AddMany": true, "AddRange": true, "Remove": true, "RemoveRange": true,
-			"Clear": true, "CheckedAdd": true, "CheckedRemove": true, "AddInt": true, "RunOptimize": true, "FromUnsafeBytes": true, "UnmarshalBinary": true, "ReadFrom": true, "FromBuffer": true}
-		isBitmapMethod := func(c *types.Func) bool {
-			if c == nil || c.Pkg() == nil || !strings.Contains(c.Pkg().Path(), "roaring64") {
-				return false
-			}
-			sig := c.Type().(*types.Signature)
-			return sig.Recv() != nil && strings.Contains(sig.Recv().Type().String(), "Bitmap") && mutating[c.Name()]
-		}
-		n := 0
-		for _, fn := range p.RepoFunctions() {
-			root := core.RootFn(fn)
-			if root.Pkg == nil {
-				continue
-			}
-			pp := strings.TrimPrefix(root.Pkg.Pkg.Path(), core.ModPath+"/")
-			if !(pp == pkgSqe || pp == pkgIndex || pp == pkgCache || pp == pkgPipe || pp == pkgExec || pp == pkgSvc) {
-				continue
-			}
-			cnt := 0
-			core.Instrs(fn, func(in ssa.Instruction) {
-				var recv ssa.Value
-				var meth string
-				switch x := in.(type) {
-				case *ssa.Call:
-					cl := core.CommonCallee(x.Common())
-					if isBitmapMethod(cl) && !x.Call.IsInvoke() {
-						recv, meth = x.Call.Args[0], cl.Name()
-					}
-				case *ssa.MakeClosure:
-					f := x.Fn.(*ssa.Function)
-					if strings.HasSuffix(f.Name(), "$bound") && f.Signature != nil {
-						name := strings.TrimSuffix(f.Name(), "$bound")
-						if mutating[name] && len(x.Bindings) == 1 && strings.Contains(x.Bindings[0].Type().String(), "roaring64.Bitmap") {
-							recv, meth = x.Bindings[0], name
-						}
-					}
-				}
-				if recv == nil {
-					return
-				}
-				n++
-				cnt++
-				r.CallSites++
-				construct := fmt.Sprintf("%s/%s#%d", core.FuncName(fn), meth, cnt)
-				r.Touch(core.FuncName(fn))
-				r.Check(freshBitmap(recv, 4), "C15.R2", construct, "a mutating bitmap method is only applied to a bitmap created in the same function (Clone()/New() or an entry of a locally built map), never to a bitmap of the shared index", "receiver may alias a shared bitmap", p.Pos(in.Pos()))
-			})
-		}
-		if n < 4 {
-			core.Undecide("only %d mutating bitmap call sites found", n)
-		}
-	})
+	checkSharedBitmaps(p, r, "C15.R2")
 
 	// ------------------------------------------------------------------ R3
 	r.Guard("C15.R3", "negation", "parser cannot produce NOT", func() {
@@ -551,4 +498,64 @@ func freshBitmap(v ssa.Value, depth int) bool {
 		}
 	}
 	return false
+}
+
+// checkSharedBitmaps: mutating roaring bitmap methods only on fresh receivers (shared by C15.R2 and C01.R4: the
+// bitmaps of a cached index file are shared by every filtered module of a request, so mutating one makes the
+// run/skip decisions depend on whether the index was cached).
+func checkSharedBitmaps(p *core.Prog, r *core.Report, rule string) {
+	r.Guard(rule, "bitmap-mutation", "fresh receivers only", func() {
+		mutating := map[string]bool{"And": true, "Or": true, "Xor": true, "AndNot": true, "Flip": true, "Add": true, "AddMany": true, "AddRange": true, "Remove": true, "RemoveRange": true,
+			"Clear": true, "CheckedAdd": true, "CheckedRemove": true, "AddInt": true, "RunOptimize": true, "FromUnsafeBytes": true, "UnmarshalBinary": true, "ReadFrom": true, "FromBuffer": true}
+		isBitmapMethod := func(c *types.Func) bool {
+			if c == nil || c.Pkg() == nil || !strings.Contains(c.Pkg().Path(), "roaring64") {
+				return false
+			}
+			sig := c.Type().(*types.Signature)
+			return sig.Recv() != nil && strings.Contains(sig.Recv().Type().String(), "Bitmap") && mutating[c.Name()]
+		}
+		n := 0
+		for _, fn := range p.RepoFunctions() {
+			root := core.RootFn(fn)
+			if root.Pkg == nil {
+				continue
+			}
+			pp := strings.TrimPrefix(root.Pkg.Pkg.Path(), core.ModPath+"/")
+			if !(pp == pkgSqe || pp == pkgIndex || pp == pkgCache || pp == pkgPipe || pp == pkgExec || pp == pkgSvc) {
+				continue
+			}
+			cnt := 0
+			core.Instrs(fn, func(in ssa.Instruction) {
+				var recv ssa.Value
+				var meth string
+				switch x := in.(type) {
+				case *ssa.Call:
+					cl := core.CommonCallee(x.Common())
+					if isBitmapMethod(cl) && !x.Call.IsInvoke() {
+						recv, meth = x.Call.Args[0], cl.Name()
+					}
+				case *ssa.MakeClosure:
+					f := x.Fn.(*ssa.Function)
+					if strings.HasSuffix(f.Name(), "$bound") && f.Signature != nil {
+						name := strings.TrimSuffix(f.Name(), "$bound")
+						if mutating[name] && len(x.Bindings) == 1 && strings.Contains(x.Bindings[0].Type().String(), "roaring64.Bitmap") {
+							recv, meth = x.Bindings[0], name
+						}
+					}
+				}
+				if recv == nil {
+					return
+				}
+				n++
+				cnt++
+				r.CallSites++
+				construct := fmt.Sprintf("%s/%s#%d", core.FuncName(fn), meth, cnt)
+				r.Touch(core.FuncName(fn))
+				r.Check(freshBitmap(recv, 4), rule, construct, "a mutating bitmap method is only applied to a bitmap created in the same function (Clone()/New() or an entry of a locally built map), never to a bitmap of the shared index", "receiver may alias a shared bitmap", p.Pos(in.Pos()))
+			})
+		}
+		if n < 4 {
+			core.Undecide("only %d mutating bitmap call sites found", n)
+		}
+	})
 }
